@@ -88,7 +88,8 @@ pub fn scenario(acc: &mut Acc, seed: u64, index: u64, tier: Tier) {
     acc.count("programs", 1);
 
     // fault-free reference run (shipped schedule), full ledger audit
-    let plan0 = fault_plan(None, CollectPlan::Shipped, REFERENCE_BUDGET);
+    // (the few very long directed texts get a budget proportional to their length)
+    let plan0 = fault_plan(None, CollectPlan::Shipped, REFERENCE_BUDGET.max(src.len() as u64));
     acc.begin(&spec::eval_spec("crash-sim", src, &plan0));
     let r0 = runner::run_eval(src, &plan0, 1, true);
     acc.count("runs", 1);
